@@ -1487,7 +1487,7 @@ namespace avel {
         auto ret = _mm_getmant_pd(decay(v), _MM_MANT_NORM_p5_1, _MM_MANT_SIGN_src);
         // Note: Returns -1 or 1 for -infinity and +infinity respectively
 
-        ret = _mm_maskz_mov_pd(is_non_zero, ret);
+        ret = _mm_mask_mov_pd(decay(v), is_non_zero, ret);
         ret = _mm_mask_blend_pd(is_infinity, ret, decay(v));
         return vec2x64f{ret};
 
@@ -1504,7 +1504,7 @@ namespace avel {
         auto ret = _mm_getmant_pd(decay(v), _MM_MANT_NORM_p5_1, _MM_MANT_SIGN_src);
         // Note: Returns -1 or 1 for -infinity and +infinity respectively
 
-        ret = _mm_maskz_mov_pd(is_non_zero, ret);
+        ret = _mm_mask_mov_pd(decay(v), is_non_zero, ret);
         ret = _mm_mask_blend_pd(is_infinity, ret, decay(v));
         return vec2x64f{ret};
 
